@@ -156,7 +156,7 @@ impl Ctx {
                         let st = self.slots[t].0.load(Ordering::Relaxed);
                         if st != 0 && now.saturating_sub(st) > self.case_timeout.as_millis() as u64 && self.slots[t].2.load(Ordering::Relaxed) == sweep_id {
                             let idx = self.slots[t].1.load(Ordering::Relaxed);
-                            self.violation(format!("{}:{}:hang", self.property, sw.name), format!("case {}:{} did not terminate within {:?}", sw.name, idx, self.case_timeout), json!({"sweep": sw.name, "index": idx, "kind": "hang"}));
+                            self.panic_violation(format!("{}:{}:hang", self.property, sw.name), format!("case {}:{} did not terminate within {:?}", sw.name, idx, self.case_timeout), json!({"sweep": sw.name, "index": idx, "kind": "hang"}));
                             self.note(format!("watchdog: aborting run, case {}:{} hung", sw.name, idx));
                             self.finish_and_exit();
                         }
